@@ -206,6 +206,8 @@ static void tally(WorkerSummary &sum, const Plan &plan, const RunResult &r, uint
   for (auto &p : r.faults_fired) sum.faults[p.first] += p.second;
   for (auto &p : r.probes) sum.probes[p.first] += p.second;
   for (auto &s : r.known) sum.classes["known:" + s]++;
+  if (r.verdict == "inconclusive") sum.classes["inconclusive: " + r.note]++;
+  if (r.verdict == "violation") sum.classes[r.cls()]++;
   sum.sched.insert(r.sched_hash); sum.states.insert(r.state_hash); sum.traces.insert(r.trace_hash);
   if (r.nontrivial) { sum.nontrivial++; sum.nontrivial_sched.insert(mix64(r.sched_hash, r.trace_hash)); }
   if (sum.samples.size() < 2 && (i % 7 == 0 || sum.samples.empty())) {
@@ -224,7 +226,7 @@ static void worker_main(PropertyDef *def, const std::string &tier, uint64_t seed
   signal(SIGALRM, hang_handler);
   FILE *out = fdopen(outfd, "w"); setvbuf(out, nullptr, _IOLBF, 0);
   WorkerSummary sum; Json hashes = Json::arr();
-  int vcount = 0;
+  int vcount = 0; std::set<std::string> seen_classes;
   for (uint64_t i = start_i; i < n; i += (uint64_t)J) {
     if (now_s() > deadline) break;
     Plan plan;
@@ -236,8 +238,8 @@ static void worker_main(PropertyDef *def, const std::string &tier, uint64_t seed
     tally(sum, plan, r, i);
     if (hash_only) { hashes.push(Json::arr().push((unsigned long long)i).push(hex64(r.trace_hash)).push(r.verdict)); continue; }
     for (auto &s : r.known) fprintf(out, "K %s\n", s.c_str());
-    if (r.verdict == "violation" && vcount < 3) {
-      vcount++;
+    if (r.verdict == "violation" && vcount < 3 && !seen_classes.count(r.cls())) {
+      vcount++; seen_classes.insert(r.cls());
       // determinism of the failing run, then minimise, then write the replay file
       alarm(600);
       RunResult r2 = run_plan(plan, images, false);
@@ -376,7 +378,11 @@ int check_main(int argc, char **argv) {
   run_batch(def, tier, seed, n, J, images, outdir, t0 + budget, false, bo);
 
   // 3. violations: fresh-process replay gate
+  std::sort(bo.violations.begin(), bo.violations.end(), [](const Json &a, const Json &b) { return a.geti("i") < b.geti("i"); });
+  std::set<std::string> reported_classes;
   for (auto &v : bo.violations) {
+    if (reported_classes.count(v.gets("class"))) continue;
+    reported_classes.insert(v.gets("class"));
     if (v.getb("nondeterministic")) { printf("simq: plan %lld violated %s but did not reproduce in-process: non-deterministic\n", (long long)v.geti("i"), v.gets("class").c_str()); exit_code = 2; continue; }
     std::string file = v.gets("replay"); int st = 0;
     std::string line = fresh_replay(file, images, &st, 300);
@@ -406,6 +412,7 @@ int check_main(int argc, char **argv) {
   if (s.runs > 50 && s.inconclusive * 100 > s.runs) { printf("simq: %llu of %llu runs inconclusive (budget exhausted) - workload and budgets do not fit\n", (unsigned long long)s.inconclusive, (unsigned long long)s.runs); if (exit_code != 1) exit_code = 2; }
   if (s.runs == 0) { printf("simq: no plan was run\n"); if (exit_code != 1) exit_code = 2; }
 
+  for (auto &c : s.classes) printf("simq:   %s x%llu\n", c.first.c_str(), (unsigned long long)c.second);
   // 5. evidence
   double wall = now_s() - t0;
   Json ev = Json::obj();
